@@ -1289,8 +1289,8 @@ _pattern.define(
         | LITERAL
         | brackets(many(_pattern | unpack("iterable")))
         | in_tuple(many(_pattern | unpack("iterable")))
-        | pexpr(keepsym("."), many(SYM))
-        | pexpr(keepsym("|"), many(_pattern))
+        | pexpr(keepsym("."), times(2, Inf, SYM))
+        | pexpr(keepsym("|"), oneplus(_pattern))
         | braces(many(LITERAL + _pattern), maybe(pvalue("unpack-mapping", SYM)))
         | pexpr(
             pexpr(keepsym("."), oneplus(SYM))
@@ -1380,7 +1380,7 @@ def compile_pattern(compiler, pattern):
             )
         )
 
-    if str(value) in ("None", "True", "False"):
+    if isinstance(value, Symbol) and str(value) in ("None", "True", "False"):
         return asty.MatchSingleton(
             value,
             value=compiler.compile(value).force_expr.value,
@@ -1428,7 +1428,7 @@ def compile_pattern(compiler, pattern):
                 value,
                 keys=[compiler.compile(key).expr for key in keys],
                 patterns=[compile_pattern(compiler, v) for v in values],
-                rest=mangle(rest) if rest else None,
+                rest=mangle(compiler._nonconst(rest)) if rest else None,
             )
         )
     elif isinstance(value, Expression):
